@@ -70,6 +70,14 @@ def directed_cases():
             out.append({"id": f"rootlink{v}-{d}", "names": ["a", "sub/b c", "stale", "z"], "secs": [1_700_000_000, 1_600_000_000, 5],
                         "src": [[1, 1, 0], [2, 1, 1], [], [3, 2, 0]], "dst": [[1, 1, 0], [], [2, 2, 0], [1, 2, 0]],
                         "pats": [], "del": dl, "dry": False, "dir": d, "jobs": 1 + v % 2, "root_link": side})
+    # a user's own files whose names END in the staging suffix (no sibling they could be the staging file of): delivered, kept
+    # in step, not sent again, removed with --delete like any other file
+    for d in ("local", "push", "pull"):
+        for v, dl in enumerate([False, True]):
+            out.append({"id": f"usertmp{v}-{d}", "names": ["cache/index.db.copia-tmp", "old.copia-tmp", "plain", "z.copia-tmp"],
+                        "secs": [1_700_000_000, 1_600_000_000, 5],
+                        "src": [[1, 1, 0], [], [2, 1, 0], [3, 1, 0]], "dst": [[], [2, 2, 0], [2, 1, 0], [3, 1, 0]],
+                        "pats": [], "del": dl, "dry": False, "dir": d, "jobs": 1 + v})
     # exclude patterns that match nothing in the trees but do match the roots' OWN directory names (the run's roots are
     # .../src and .../dst): patterns are about paths relative to the roots, so the plan, the dry run's listing and the real
     # run's effects are those of a run without them
